@@ -25,9 +25,22 @@
      the selector over the abstract cells, so
      the emitted INTEGER_t table resolves like the set as written and the frame
      decoders over it are the abstract ones; a cell one octet short loses its row
-     and answers to another identifier (witness). *)
+     and answers to another identifier (witness);
+   - the table as a MATRIX over a class of ANY shape (Rt/OpenTypeMatrix.v: n fields in class order,
+     identifier column ic, member column fc, objects as written setting any subset of the fields):
+     the dense emission has rows x columns cells and cell (r, c) is field c of object r (None when
+     unset); the generated selector, which indexes the flat array as rows[row * columns + column],
+     is the selection on the set as written; for objects that set the identifier and the members'
+     type fields it is OpenType.select on the table of the set as written, so every frame theorem
+     above transfers to every class shape; an emission that skips unset cells under the same header
+     (seeded change C18-4) refuses a row, answers with the wrong presence index, or walks beyond
+     the array (witnesses) and cannot be told from the dense one when every object sets every
+     field; presence_index = row + 1 is the alternative of the row only if every object sets the
+     member's field (in general: the number of earlier rows that set it; witness = known finding);
+     a set with references to other sets keeps every object only if it has nothing but references
+     (witness for the mixed case = known finding). *)
 From Coq Require Import ZArith List Bool.
-From A1 Require Import Base.Bytes Leaf.BerTL Rt.Types Rt.Comb Rt.Der Rt.DerProofs Rt.Uper Rt.OpenType Rt.OpenTypeProofs Rt.OpenTypeCell Rt.OpenTypeCellProofs.
+From A1 Require Import Base.Bytes Leaf.BerTL Rt.Types Rt.Comb Rt.Der Rt.DerProofs Rt.Uper Rt.OpenType Rt.OpenTypeProofs Rt.OpenTypeCell Rt.OpenTypeCellProofs Rt.OpenTypeMatrix Rt.OpenTypeMatrixProofs.
 Import ListNotations.
 Local Open Scope Z_scope.
 
@@ -165,3 +178,107 @@ Theorem C18_short_cell_refuted :
     select_rep RWide (encode_table [(VInt z, [t])]) (VInt (z - 256)) = None.
 Proof. exact short_cell_refuted. Qed.
 Print Assumptions C18_short_cell_refuted.
+
+(* ---------------- round 3: the table as a matrix over any class shape ---------------- *)
+Local Open Scope nat_scope.
+
+Theorem C18_matrix_shape : forall (A : Type) n (objs : list (obj A)),
+  length (e_cells (emit_dense n objs)) = e_rows (emit_dense n objs) * n /\
+  forall r c o, nth_error objs r = Some o -> c < n ->
+    cell_at (emit_dense n objs) r c = Some (lookup c o).
+Proof. intros. split; [apply cells_dense_length|apply cell_at_dense]. Qed.
+Print Assumptions C18_matrix_shape.
+
+Theorem C18_select_dense_written : forall (A : Type) (eq : A -> bool) n ic fc (objs : list (obj A)),
+  ic < n -> fc < n ->
+  select_flat eq (emit_dense n objs) ic fc = select_written eq ic fc objs 0.
+Proof. exact select_dense_written. Qed.
+Print Assumptions C18_select_dense_written.
+
+Theorem C18_select_written_first : forall (A : Type) (eq : A -> bool) ic fc (objs : list (obj A)),
+  (forall r tc, select_written eq ic fc objs 0 = SelRow r tc ->
+     exists o idc, nth_error objs r = Some o /\ lookup ic o = Some idc /\ eq idc = true /\ tc = lookup fc o /\
+       forall j o', j < r -> nth_error objs j = Some o' -> exists c', lookup ic o' = Some c' /\ eq c' = false) /\
+  (select_written eq ic fc objs 0 = SelNone ->
+     Forall (fun o => exists c, lookup ic o = Some c /\ eq c = false) objs) /\
+  (Forall (fun o => lookup ic o <> None) objs -> select_written eq ic fc objs 0 <> SelStuck).
+Proof.
+  intros. repeat split.
+  - intros r tc H. apply select_written_row in H.
+    destruct H as (k & o & idc & -> & H). exists o, idc. exact H.
+  - apply select_written_none.
+  - apply select_written_defined.
+Qed.
+Print Assumptions C18_select_written_first.
+
+Theorem C18_select_matrix_table : forall v n ic mcols j fc (objs : list (obj setting)) tbl,
+  table_of ic mcols objs = Some tbl -> nth_error mcols j = Some fc -> ic < n -> fc < n ->
+  select_flat (id_is v) (emit_dense n objs) ic fc
+  = match select_col tbl v j with
+    | Some (i, t) => SelRow i (Some (ST t))
+    | None => SelNone
+    end.
+Proof. exact select_matrix_table. Qed.
+Print Assumptions C18_select_matrix_table.
+
+Theorem C18_emit_skip_complete : forall (A : Type) n (objs : list (obj A)),
+  Forall (fun o => forall c, c < n -> lookup c o <> None) objs ->
+  emit_skip n objs = emit_dense n objs.
+Proof. exact emit_skip_complete. Qed.
+Print Assumptions C18_emit_skip_complete.
+
+Theorem C18_emit_skip_refused_refuted :
+  exists n ic fc (objs : list (obj nat)) v,
+    ic < n /\ fc < n /\
+    select_written (Nat.eqb v) ic fc objs 0 = SelRow 1 (Some 12) /\
+    select_flat (Nat.eqb v) (emit_skip n objs) ic fc = SelNone.
+Proof. exact emit_skip_refused_refuted. Qed.
+Print Assumptions C18_emit_skip_refused_refuted.
+
+Theorem C18_emit_skip_wrong_row_refuted :
+  exists n ic fc (objs : list (obj nat)) v,
+    ic < n /\ fc < n /\
+    select_written (Nat.eqb v) ic fc objs 0 = SelRow 4 (Some 15) /\
+    select_flat (Nat.eqb v) (emit_skip n objs) ic fc = SelRow 3 (Some 15).
+Proof. exact emit_skip_wrong_row_refuted. Qed.
+Print Assumptions C18_emit_skip_wrong_row_refuted.
+
+Theorem C18_emit_skip_out_of_bounds_refuted :
+  exists n ic fc (objs : list (obj nat)) v,
+    ic < n /\ fc < n /\
+    select_written (Nat.eqb v) ic fc objs 0 = SelRow 2 (Some 13) /\
+    select_flat (Nat.eqb v) (emit_skip n objs) ic fc = SelStuck /\
+    length (e_cells (emit_skip n objs)) < e_rows (emit_skip n objs) * e_cols (emit_skip n objs).
+Proof. exact emit_skip_out_of_bounds_refuted. Qed.
+Print Assumptions C18_emit_skip_out_of_bounds_refuted.
+
+Theorem C18_presence_alternative_partial : forall (A : Type) fc (objs : list (obj A)) r o,
+  Forall (fun o => lookup fc o <> None) objs ->
+  nth_error objs r = Some o -> nth_error (alts fc objs) r = lookup fc o.
+Proof. exact alts_complete. Qed.
+Print Assumptions C18_presence_alternative_partial.
+
+Theorem C18_presence_alternative_counted : forall (A : Type) fc (objs : list (obj A)) r o s,
+  nth_error objs r = Some o -> lookup fc o = Some s ->
+  nth_error (alts fc objs) (count_set fc (firstn r objs)) = Some s.
+Proof. exact alts_counted. Qed.
+Print Assumptions C18_presence_alternative_counted.
+
+Theorem C18_presence_row_plus_one_refuted :
+  exists fc (objs : list (obj nat)) r o t,
+    nth_error objs r = Some o /\ lookup fc o = Some t /\
+    nth_error (alts fc objs) r <> Some t /\
+    nth_error (alts fc objs) (count_set fc (firstn r objs)) = Some t.
+Proof. exact presence_row_plus_one_refuted. Qed.
+Print Assumptions C18_presence_row_plus_one_refuted.
+
+Theorem C18_compile_objs_partial : forall (A : Type) (s : eset A),
+  (has_ref s = false -> Forall (fun g => length g <> 1) s -> compile_objs s = spec_objs s) /\
+  (has_ref s = true -> Forall (Forall (ref_faithful A)) s -> compile_objs s = spec_objs s).
+Proof. intros. split; [apply compile_objs_partial|apply compile_objs_refs]. Qed.
+Print Assumptions C18_compile_objs_partial.
+
+Theorem C18_compile_objs_mixed_refuted :
+  exists (s : eset nat), compile_objs s <> spec_objs s /\ exists o, In o (spec_objs s) /\ ~ In o (compile_objs s).
+Proof. exact compile_objs_mixed_refuted. Qed.
+Print Assumptions C18_compile_objs_mixed_refuted.
